@@ -98,6 +98,15 @@ def gen_spec(rng, i):
             blocks[b + 1] = blocks[b + 1][kb:]
     for b in range(3):
         segs[b] = distribute(blocks[b], 0, b)
+    # text behind the blank line that ends the data block (fixes c74af97, fec410e): ignored, in the top-level file and
+    # in a file pulled in by a read input of the data block alike
+    junk = lambda: [entry(w) for w in rng.sample([["nps", "77"], ["print"], ["this", "is", "no", "input"], ["99", "0", "-1"]], rng.randint(1, 2))]
+    if rng.random() < 0.2:
+        segs.append(junk())
+    for card in list(iter_cards({"segs": segs})):
+        ch = card["child"]
+        if ch["start"] + len(ch["segs"]) == 3 and rng.random() < 0.15:
+            ch["segs"].append(junk())
     if spill:
         b, tail, head = spill
         child = {"name": new_name(), "start": b, "segs": [[entry(w) for w in tail], [entry(w) for w in head]], "eof_nl": True, "eof_blank": False}
@@ -232,7 +241,9 @@ def materialise(spec):
             flat_lines += flat_render(ws)
     flat = "\n".join(flat_lines) + "\n"
     features = sorted(
-        {"multi-block-subfile" for e in iter_cards(top) if len(e["child"]["segs"]) > 1}
+        {"multi-block-subfile" for e in iter_cards(top) if len(e["child"]["segs"]) > 1 and e["child"]["start"] + len(e["child"]["segs"]) <= 3}
+        | {"after-terminator" for e in iter_cards(top) if e["child"]["start"] + len(e["child"]["segs"]) > 3}
+        | ({"after-terminator"} if len(top["segs"]) > 3 else set())
         | {"depth%d" % max([len(c) for _, c in iter_chains(top, [])] + [1])}
     )
     return {
@@ -297,7 +308,8 @@ def classify(case, syn):
 def judge(case, obs):
     """the property on the observations of the real code: None or (signature, what)"""
     base = {"mechanism": "read-card"}
-    feat = "multi-block-subfile" if "multi-block-subfile" in case.get("features", []) else "plain"
+    feats = case.get("features", [])
+    feat = "after-terminator" if "after-terminator" in feats else ("multi-block-subfile" if "multi-block-subfile" in feats else "plain")
     multi, flat, syn = obs["multi"], obs["flat"], obs["syn"]
     kind = case["kind"]
     if kind == "missing":
@@ -437,6 +449,13 @@ def corpus_specs():
     d = _node("d.i", 2, [_inp("ctme", "5")], [], eof_blank=False)
     d["segs"] = [[_inp("ctme", "5"), _inp("print")]]
     out.append(_spec(_node("main.i", 0, cells, [_inp("1", "so", "5")], [_inp("mode", "n"), _card(d)])))
+    # fixed fec410e: text behind the data block's terminator inside a sub-file of the data block / of the cell block
+    dj = _node("d.i", 2, [_inp("ctme", "5")], [_inp("print")])
+    out.append(_spec(_node("main.i", 0, cells, [_inp("1", "so", "5")], [_inp("mode", "n"), _card(dj)])))
+    allin = _node("all.i", 0, [cells[1]], [_inp("1", "so", "5")], [_inp("mode", "n")], [_inp("nps", "7")])
+    out.append(_spec(_node("main.i", 0, [cells[0], _card(allin)], [], [])))
+    # fixed c74af97: the same in the top-level file
+    out.append(_spec(_node("main.i", 0, cells, [_inp("1", "so", "5")], [_inp("mode", "n")], [_inp("nps", "7"), _inp("no", "input")])))
     # a sub-file of the cell block that carries on into the surface block
     span = _node("rest.i", 0, [_inp("2", "0", "1", "imp:n=0")], [_inp("1", "so", "5")])
     out.append(_spec(_node("main.i", 0, [cells[0], _card(span)], [], [_inp("mode", "n")])))
